@@ -238,7 +238,8 @@ impl RBig {
     ///
     /// This function requires `-1 < x < 1` and `x.denominator` > `limit`
     fn farey_neighbors(x: &Self, limit: &UBig) -> (Self, Self) {
-        debug_assert!(x.denominator() > limit);
+        // (the denominator can be equal to the limit only when the limit is one)
+        debug_assert!(x.denominator() >= limit);
         debug_assert!(!x.numerator().is_zero());
         debug_assert!(x.numerator().abs_cmp(x.denominator()).is_le());
 
